@@ -214,7 +214,7 @@ func cmdWorker(args []string, sweep bool) {
 		}
 		os.Exit(code)
 	}
-	one := func(w *Workload) {
+	one := func(w *Workload) []uint64 {
 		fmt.Fprintf(os.Stderr, "SIM-BEGIN %d\n", w.Index)
 		races0 := simrt.RaceErrors()
 		rep := runWorkload(w, st, *maxYields)
@@ -253,6 +253,7 @@ func cmdWorker(args []string, sweep bool) {
 			}
 			wo.SampleWls = append(wo.SampleWls, mustJSON(ew))
 		}
+		return rep.TaskSteps
 	}
 	for idx := *from; idx < *to; idx++ {
 		w := genWorkload(*prop, *seed, idx, *maxOps)
@@ -274,13 +275,26 @@ func cmdWorker(args []string, sweep bool) {
 		if len(w.Tasks) < 2 {
 			continue
 		}
-		for k := uint64(0); ; k++ {
+		// at most ~400 preemption points per workload: stride over the first
+		// task's yields (count learnt from the k=0 run), random phase
+		var n0 uint64
+		stride, phase := uint64(1), uint64(0)
+		for k := uint64(0); ; {
 			sw := w.clone()
-			sw.Sched = simrt.Schedule{Kind: simrt.StratExplicit, First: 0, Switches: []simrt.Switch{{TS: k, From: 0, To: 1}}}
-			before := st.Switches
-			one(sw)
-			if st.Switches == before || k > 20000 {
-				break // k is beyond the first task's last yield
+			sw.Sched = simrt.Schedule{Kind: simrt.StratExplicit, First: 0, Seed: w.Sched.Seed, Switches: []simrt.Switch{{TS: k, From: 0, To: 1}}}
+			ts := one(sw)
+			if k == 0 && len(ts) > 0 {
+				n0 = ts[0]
+				if n0 > 400 {
+					stride = n0 / 400
+					phase = NewRng(*seed, idx, 0x5eeb).U64() % stride
+				}
+				k = 1 + phase
+				continue
+			}
+			k += stride
+			if k >= n0 {
+				break
 			}
 		}
 	}
